@@ -29,7 +29,7 @@ ASSUMPTIONS = ["texts are free of '%', of ';' '+' in queries, of IPv6/IDNA hosts
 TRUSTED = ["Model/C07_Model.v is hand-written; tied to boltons.urlutils.URL by the correspondence run",
            "Spec/C07_Spec.v transcribes RFC 3986 5.2.2-5.2.4, 5.3 and Appendix B; validated in Coq against all "
            "examples of RFC 3986 5.4.1/5.4.2 (Proofs/C07_RfcExamples.v)",
-           "harness/c07.py serialiser; harness/translators/c07_tables.py, c07_src.py and the shared py2coq.py",
+           "harness/c07.py serialiser; harness/translators/c07_tables.py, c07_src.py, c07_src2.py and the shared py2coq.py",
            "Python re (the regular expression of _URL_RE is compared with the modelled one on every run)"]
 
 SEGS = ['.', '..', '', 'a', 'b', 'c;x', 'd:e', '...', '.a', 'b.', 'x=1', '@', 'é', '..', '.', 'a', '']
@@ -55,10 +55,11 @@ def _load_translator(name):
 
 
 def translators(repo):
-    """Gen/C07_Gen.v: tables + regular expression; Gen/C07_Src.v: resolve_path_parts as Gallina
-    (both from the current source, fail closed)."""
+    """Gen/C07_Gen.v: tables + regular expression; Gen/C07_Src.v: resolve_path_parts as Gallina;
+    Gen/C07_Src2.v: URL.normalize and URL.navigate as Gallina (all from the current source, fail closed)."""
     out = {"C07_Gen": _load_translator("c07_tables").tables(repo)}
     out.update(_load_translator("c07_src").generate(repo))
+    out.update(_load_translator("c07_src2").generate(repo))      # URL.normalize, URL.navigate
     return out
 
 
